@@ -8,6 +8,7 @@ import (
 	"fmt"
 	"github.com/consensys/gnark-crypto/field/babybear"
 	"github.com/consensys/gnark-crypto/field/koalabear"
+	"hash/fnv"
 	"math/big"
 	"reflect"
 	"regexp"
@@ -70,11 +71,16 @@ func main() {
 	shapes := c07shapes.Shapes
 	ok := c.Par(len(shapes), func(i int) {
 		s := shapes[i]
+		// field and depth are chosen by the shape itself (not by its number), so that the same shape is
+		// always checked the same way when the enumeration grows
+		hh := fnv.New32a()
+		hh.Write([]byte(s.Desc))
+		hv := int(hh.Sum32() % 21)
 		fname := "bn254"
-		if i%3 == 1 {
+		if hv%3 == 1 {
 			fname = "bw6_761"
 		}
-		checkShape(c, s, fields[fname], fname, valueKinds()[3], i%7 == 0 || c.Tier == "thorough")
+		checkShape(c, s, fields[fname], fname, valueKinds()[3], hv%7 == 0 || c.Tier == "thorough")
 	})
 	if !ok {
 		c.Cap("internal deadline in shape sweep")
@@ -212,10 +218,15 @@ func checkVector(c *vh.Check, s c07shapes.Shape, p *big.Int, fname string, vk va
 	}
 	sch, err := schema.New(s.New(), tVar)
 	if err == nil {
-		js, err := w.ToJSON(sch)
+		var js []byte
 		w3, _ := witness.New(p)
-		if err == nil {
-			err = w3.FromJSON(sch, js)
+		if pan := vh.Recover(func() {
+			js, err = w.ToJSON(sch)
+			if err == nil {
+				err = w3.FromJSON(sch, js)
+			}
+		}); pan != "" {
+			err = fmt.Errorf("panic: %s", pan)
 		}
 		if err != nil || !vecEq(w3.Vector(), want) {
 			det["json_error"] = fmt.Sprint(err)
